@@ -25,7 +25,7 @@ ASSUMPTIONS = ['reference model vt/ref.py (documented semantics; readings where 
                'the fakes speak the pycmsgen / pyunigen / pycryptosat interface as the library uses it (C27 checks the text protocol; '
                'the real samplers are additionally run once per design as a non-deciding smoke test)']
 BUDGET_S = {'quick': 90, 'thorough': 400}
-STRATA = ['S1', 'S1L', 'S1p', 'S1x', 'S2', 'S2s', 'S3', 'S4', 'S5', 'S6']
+STRATA = ['S1', 'S1L', 'S1n', 'S1p', 'S1x', 'S2', 'S2s', 'S3', 'S4', 'S5', 'S6']
 QUICK_CAPS = dsw.QUICK_CAPS_BIG
 CAP = {'quick': 250, 'thorough': 1500}
 N_LARGE = {'quick': 60, 'thorough': 400}
